@@ -72,7 +72,7 @@ def changedCells (base cvs : Canvas) : List (Int × Int) :=
   (regionCoords ⟨⟨0, 0⟩, cvs.size⟩).filter fun p => !(Element.eq (base.get p.1 p.2) (cvs.get p.1 p.2))
 
 def checkDraw (c : OCfg) (i : Nat) (st : SSt) (bytes : List Byte) : SSt :=
-  let before := st.vt
+  let before := compactVT st.vt
   let vt := before.feedAll bytes
   let cvs := st.cvs
   let st := { st with vt := vt }
